@@ -243,6 +243,7 @@ def _signature_extras(rep):
 
 def replay_graph(chk: Check, g, c, *, budget, rng, deviate=None, report=True):
     hdr = hdr_from_consts(c)
+    hdr["f64"] = bool(report and rng.random() < 0.3)       # some graphs are replayed on a float64 connection
     made = []
 
     def make():
@@ -363,7 +364,7 @@ def random_updater_traces(rng, count, steps=40):
         w0 = {p: [rng.choice([-S, -S // 2, 0, S // 4, S // 2, S, 3 * S // 2, 2 * S]) for _ in range(sizes[p])]
               for p in params}
         red0 = rng.choice(["default", "default", "amax", "mean", "amin", "sum2", "clip", "sumsq"])
-        hdr = {"S": S, "params": params, "n_in": n_in, "n_out": n_out, "w0": w0, "red0": red0}
+        hdr = {"S": S, "params": params, "n_in": n_in, "n_out": n_out, "w0": w0, "red0": red0, "f64": rng.random() < 0.25}
         impl = UpdaterImpl(hdr)
         init = _mech_init(impl)
         evs = []
